@@ -143,7 +143,7 @@ func Check(id, tier string, seed int) int {
 			return 2
 		}
 	}
-	timeout := 10000
+	timeout := 20000
 	if tier == "thorough" {
 		timeout = 60000
 	}
@@ -223,6 +223,10 @@ func Check(id, tier string, seed int) int {
 		for _, ob := range r.u.Obligations() {
 			if ob.Cover {
 				nCover++
+				if ob.Status == "unsat" && r.u.DeadOK(ob.Name) {
+					nCoverOK++
+					continue
+				}
 				if ob.Status == "unsat" {
 					fmt.Printf("ENGINE-ERROR property=%s vacuous: %s is unreachable under the assumptions\n", id, ob.Name)
 					engineErr = true
